@@ -149,10 +149,12 @@ def TagReq.tAnn (c : TagReq) (j : Json) : Except String TAnn := do
   return { id := ← fldNat j "id", hasGeom := ← fldBool j "geom", tags := ← c.tags (← fld j "tags") }
 
 def TagReq.ccPreds (c : TagReq) (j : Json) : Except String (List (Nat × CCPredT)) := do
-  (← getArr j).mapM (fun x => do return (← fldNat x "clip", ⟨← c.predTags (optFld x "tags" (arrJ []))⟩))
+  (← getArr j).mapM (fun x => do
+    return (← fldNat x "clip", ⟨← c.predTags (optFld x "tags" (arrJ [])), (← getArr (optFld x "events" (arrJ []))).length⟩))
 
 def TagReq.ccAnns (c : TagReq) (j : Json) : Except String (List (Nat × CCAnnT)) := do
-  (← getArr j).mapM (fun x => do return (← fldNat x "clip", ⟨← c.tags (optFld x "tags" (arrJ []))⟩))
+  (← getArr j).mapM (fun x => do
+    return (← fldNat x "clip", ⟨← c.tags (optFld x "tags" (arrJ [])), (← getArr (optFld x "events" (arrJ []))).length⟩))
 
 def TagReq.sePreds (c : TagReq) (j : Json) : Except String (List (Nat × List TPred)) := do
   (← getArr j).mapM (fun x => do
@@ -176,7 +178,10 @@ def runTaskT (a : Json) : Except String (Except Err EvalOut) := do
   match ← fldStr a "task" with
   | "clip_classification" => return clipClassificationT id c.vocab (← c.ccPreds ps) (← c.ccAnns as)
   | "clip_multilabel_classification" =>
-    return clipMultilabelT id c.vocab (← c.ccPreds ps) (← c.ccAnns as) (← getRatList (optFld a "clip_scores" (arrJ [])))
+    -- clip scores: a parameter when the request carries them, otherwise the closed form over the model's encodings
+    match fldOpt a "clip_scores" with
+    | some j => return clipMultilabelT id c.vocab (← c.ccPreds ps) (← c.ccAnns as) (← getRatList j)
+    | none => return clipMultilabelClosedT id c.vocab (← c.ccPreds ps) (← c.ccAnns as)
   | "sound_event_classification" => return soundEventClassificationT id c.vocab (← c.sePreds ps) (← c.seAnns as)
   | "sound_event_detection" => return soundEventDetectionT id c.vocab (← c.detPreds ps) (← c.seAnns as)
   | t => .error s!"unknown task {t}"
